@@ -576,8 +576,14 @@ func Normalize(dir, inventoryPath string) (out string, notes []string, cleanup f
 		}
 	}
 	if len(inlined) > 0 {
-		if err := dropDeadClosures(tmp); err != nil {
-			return dir, nil, cleanup, err
+		for pass := 0; pass < 6; pass++ {
+			changed, err := dropDeadClosures(tmp)
+			if err != nil {
+				return dir, nil, cleanup, err
+			}
+			if !changed {
+				break
+			}
 		}
 	}
 	for k := range inlined {
@@ -618,13 +624,38 @@ func Normalize(dir, inventoryPath string) (out string, notes []string, cleanup f
 	return tmp, notes, cleanup, nil
 }
 
+// closureDead: the closure variable o of fd is used by nothing but `_ = o` markers.
+func closureDead(p *packages.Package, fd *ast.FuncDecl, o types.Object) bool {
+	dead := true
+	var stack []ast.Node
+	ast.Inspect(fd.Body, func(m ast.Node) bool {
+		if m == nil {
+			stack = stack[:len(stack)-1]
+			return true
+		}
+		stack = append(stack, m)
+		u, isId := m.(*ast.Ident)
+		if !isId || p.TypesInfo.Uses[u] != o {
+			return true
+		}
+		if as2, isAs := stack[len(stack)-2].(*ast.AssignStmt); isAs && len(as2.Lhs) == 1 && len(as2.Rhs) == 1 && as2.Rhs[0] == ast.Expr(u) {
+			if b, isB := as2.Lhs[0].(*ast.Ident); isB && b.Name == "_" {
+				return true
+			}
+		}
+		dead = false
+		return true
+	})
+	return dead
+}
+
 // dropDeadClosures removes `name := func(...) {...}` definitions (and the `_ = name` markers) of closure variables
 // that nothing uses any more once their calls have been inlined: a literal that is never called has no effect, but
 // it still captures variables, which would keep them in memory cells instead of registers for the analysis.
-func dropDeadClosures(tmp string) error {
+func dropDeadClosures(tmp string) (bool, error) {
 	pkgs, err := loadSyntax(tmp)
 	if err != nil {
-		return nil // the rounds left the tree as the main load will see it
+		return false, nil // the rounds left the tree as the main load will see it
 	}
 	saved := map[string][]byte{}
 	for _, p := range pkgs {
@@ -642,10 +673,35 @@ func dropDeadClosures(tmp string) error {
 				ast.Inspect(fd.Body, func(n ast.Node) bool {
 					var id *ast.Ident
 					var as ast.Node
+					var litOnly *ast.FuncLit // set when only the literal (one of several right-hand sides) is to go
 					switch x := n.(type) {
 					case *ast.AssignStmt:
-						if x.Tok != token.DEFINE || len(x.Lhs) != 1 || len(x.Rhs) != 1 {
+						if x.Tok != token.DEFINE || len(x.Lhs) != len(x.Rhs) {
 							return true
+						}
+						if len(x.Lhs) > 1 {
+							// a, f, g := v, func…, func…: a dead literal is replaced by a typed nil
+							for k := range x.Lhs {
+								i, ok := x.Lhs[k].(*ast.Ident)
+								lit, isLit := x.Rhs[k].(*ast.FuncLit)
+								if !ok || !isLit || i.Name == "_" || id != nil {
+									continue
+								}
+								if o := p.TypesInfo.Defs[i]; o != nil && closureDead(p, fd, o) {
+									id, as, litOnly = i, x, lit
+								}
+							}
+							if id == nil {
+								return true
+							}
+							off := func(pos token.Pos) int { return p.Fset.Position(pos).Offset }
+							content, err := os.ReadFile(filename)
+							if err != nil {
+								return true
+							}
+							sig := string(content[off(litOnly.Type.Pos()):off(litOnly.Type.End())])
+							edits = append(edits, textEdit{off(litOnly.Pos()), off(litOnly.End()), "(" + sig + ")(nil)"})
+							return false
 						}
 						i, ok := x.Lhs[0].(*ast.Ident)
 						if _, isLit := x.Rhs[0].(*ast.FuncLit); !ok || !isLit {
@@ -719,25 +775,26 @@ func dropDeadClosures(tmp string) error {
 			}
 			content, err := os.ReadFile(filename)
 			if err != nil {
-				return err
+				return false, err
 			}
 			saved[filename] = content
 			if err := os.WriteFile(filename, []byte(applyEdits(content, 0, edits)), 0o644); err != nil {
-				return err
+				return false, err
 			}
 		}
 	}
 	if len(saved) == 0 {
-		return nil
+		return false, nil
 	}
 	if _, err := loadSyntax(tmp); err != nil {
 		for fn, c := range saved {
 			if werr := os.WriteFile(fn, c, 0o644); werr != nil {
-				return werr
+				return false, werr
 			}
 		}
+		return false, nil
 	}
-	return nil
+	return true, nil
 }
 
 func calleeIdent(call *ast.CallExpr) *ast.Ident {
